@@ -555,6 +555,8 @@ DISTINCT_COUNT_RULES = [
     # the test evaluation (count = 0) never reaches the undeclared name: "a rule naming only declared fields"
     ("b < 1 or no_such_field > 3", 1, False), ("b > 0 and no_such_field < 5", 1, False), ("b >= 0 or zz", 1, False),
     ("b if True else nothing", 1, False),
+    # ... also when the name hides in a nested scope (a lambda, a comprehension): its names are in a nested code object
+    ("b < 1 or (lambda: nope)()", 1, False), ("b >= 0 or [nope for _ in ()]", 1, False),
     # names of builtins are no fields either; called, they can end the process (SystemExit is no Exception)
     ("b < exit()", 1, False), ("b >= 0 or quit()", 1, False), ("b < len(nothing)", 1, False),
 ]
